@@ -36,15 +36,15 @@ var initWhitelist = map[string]bool{
 
 // Packages whose globals may be read as zero values without running their init (no initialiser matters to us).
 var zeroOKPackages = map[string]bool{
-	"encoding/binary": true,
-	"time":            true,
-	"errors":          true,
-	"sync":            true,
-	"sync/atomic":     true,
-	"internal/race":   true,
+	"encoding/binary":  true,
+	"time":             true,
+	"errors":           true,
+	"sync":             true,
+	"sync/atomic":      true,
+	"internal/race":    true,
 	"internal/godebug": true,
-	"runtime":         true,
-	"unicode":         false,
+	"runtime":          true,
+	"unicode":          false,
 }
 
 func (m *Machine) globalAddr(fr *Frame, g *ssa.Global) *Value {
